@@ -171,6 +171,10 @@ type ConcCase struct {
 	// Inbound: that many requests of the peer arrive, and are handled by a handler that returns
 	// at once, while the writers are at work (the goroutine serving the connection is busy too).
 	Inbound int `json:"inbound,omitempty"`
+	// InboundAnswers (with Inbound, no transport faults): the handler writes a message of its own
+	// for every request, through the Conn it was called with - another handle of the same
+	// connection than the one NewConn returned to the writers.
+	InboundAnswers bool `json:"inbound_answers,omitempty"`
 	// Mixed (with Retries, no transport faults): only the even-numbered writers use the retrying
 	// entry points, the odd-numbered ones write with plain WriteTo - both kinds share the connection.
 	Mixed bool `json:"mixed,omitempty"`
@@ -222,6 +226,7 @@ func genConc(t *rapid.T) ConcCase {
 	}
 	if rapid.IntRange(0, 2).Draw(t, "inbound") == 0 {
 		c.Inbound = rapid.IntRange(1, 12).Draw(t, "n-inbound")
+		c.InboundAnswers = rapid.Bool().Draw(t, "handler-writes-too")
 	}
 	if rapid.IntRange(0, 2).Draw(t, "with-retries") == 0 {
 		c.Retries = 64
@@ -231,6 +236,9 @@ func genConc(t *rapid.T) ConcCase {
 			c.Stalls[i].Fault = rapid.IntRange(0, 2).Draw(t, "fault") == 0
 		}
 		c.Budget = rapid.SampledFrom([]string{"", "", "maxint", "maxuint"}).Draw(t, "budget")
+		if !c.Mixed {
+			c.InboundAnswers = false // the handler writes with plain WriteTo: no scripted transport errors then
+		}
 	}
 	return c
 }
@@ -310,7 +318,38 @@ func runConc(c ConcCase) *ev.Failure {
 		accept(b[k:]) // read from the caller's slice after the wait
 		return len(b), nil
 	}
-	conn, err := serveConn(mc)
+	answers := c.InboundAnswers && c.Inbound > 0
+	if answers {
+		for i := 0; i < c.Inbound; i++ {
+			a := abstractMsg(97, i, 3)
+			expect[string(a.RefBytes())] = key{97, i}
+			total++
+		}
+	}
+	var hmu sync.Mutex
+	var herr error
+	var handled int32
+	mux := diam.NewServeMux()
+	mux.HandleFunc("ALL", func(cn diam.Conn, m *diam.Message) {
+		defer atomic.AddInt32(&handled, 1)
+		if !answers {
+			return
+		}
+		// the inbound request is abstractMsg(99, i, 0): End-to-End id = i + 1
+		a := abstractMsg(97, int(m.Header.EndToEndID)-1, 3)
+		n, err := diamMsg(&a).WriteTo(cn)
+		if err == nil && int(n) != len(a.RefBytes()) {
+			err = fmt.Errorf("WriteTo returned %d for a %d-byte message", n, len(a.RefBytes()))
+		}
+		if err != nil {
+			hmu.Lock()
+			if herr == nil {
+				herr = err
+			}
+			hmu.Unlock()
+		}
+	})
+	conn, err := diam.NewConn(mc, "", mux, dict.Default)
 	if err != nil {
 		return ev.Failf("harness-conn", "NewConn: %v", err)
 	}
@@ -378,6 +417,16 @@ func runConc(c ConcCase) *ev.Failure {
 		mc.Close()
 		return ev.Failf("writers-stuck", "%d writers did not finish %d messages within 20 s (%d transport writes entered)", len(c.Writers), total, atomic.LoadInt32(&entered))
 	}
+	if answers {
+		// the handler's own writes belong to the recorded stream: wait for the last of them
+		for deadline := time.Now().Add(20 * time.Second); atomic.LoadInt32(&handled) < int32(c.Inbound); {
+			if time.Now().After(deadline) {
+				mc.Close()
+				return ev.Failf("writers-stuck", "the connection's handler finished %d of %d requests within 20 s", atomic.LoadInt32(&handled), c.Inbound)
+			}
+			time.Sleep(200 * time.Microsecond)
+		}
+	}
 	close(results)
 	dynCount("dyn:stall-with-another-write-pending", int64(atomic.LoadInt32(&stallsWithPending)))
 	if atomic.LoadInt32(&stallsWithPending) > 0 {
@@ -401,6 +450,12 @@ func runConc(c ConcCase) *ev.Failure {
 		if int(r.n) != r.want {
 			return ev.Failf("writer-count", "WriteTo of message w%d-%d returned n=%d for a %d-byte message", r.writer, r.seq, r.n, r.want)
 		}
+	}
+	hmu.Lock()
+	he := herr
+	hmu.Unlock()
+	if he != nil {
+		return ev.Failf("writer-error", "a message written by the connection's handler through its own Conn failed although the transport never fails: %v", he)
 	}
 	msgs, tail, err := refcodec.SplitMessages(stream)
 	if err != nil {
@@ -459,6 +514,9 @@ func classifyConc(c ConcCase) (bool, []string) {
 	}
 	if c.Inbound > 0 {
 		cl.add("peer-requests-handled-meanwhile")
+		if c.InboundAnswers {
+			cl.add("handler-writes-through-its-own-conn-meanwhile")
+		}
 	}
 	stall := false
 	for i := 0; i < total && i < len(c.Stalls); i++ {
@@ -482,7 +540,7 @@ func classifyConc(c ConcCase) (bool, []string) {
 
 var concProp = ev.Register(&ev.Prop[ConcCase]{
 	ID: "C07", Name: "concurrent",
-	Rule: "1..8 goroutines each WriteTo 1..5 numbered messages (sizes below/at/above 1 KiB and 4 KiB) to one diam.Conn over a memnet.Conn whose Write accepts a prefix, stalls (none / Gosched / 50-500 us / until another writer has a write under way) and copies the rest from the caller's slice; 1 in 3 cases requests of the peer are handled by the connection meanwhile; 1 in 3 cases every writer uses WriteToWithRetry (half of them addressed to stream 0, as answers are) and some transport writes end with (prefix accepted, temporary error) instead - or, without such faults, only the even-numbered writers retry and the others use plain WriteTo; the retry budget is 64, MaxInt or MaxUint; non-trivial = >= 2 writers and >= 1 stalling transport write (the classes dyn:* count the stalls during which another writer was observed inside WriteTo)",
+	Rule: "1..8 goroutines each WriteTo 1..5 numbered messages (sizes below/at/above 1 KiB and 4 KiB) to one diam.Conn over a memnet.Conn whose Write accepts a prefix, stalls (none / Gosched / 50-500 us / until another writer has a write under way) and copies the rest from the caller's slice; 1 in 3 cases requests of the peer are handled by the connection meanwhile (half of those: the handler writes a message per request through the Conn it was called with, while the writers use the Conn NewConn returned); 1 in 3 cases every writer uses WriteToWithRetry (half of them addressed to stream 0, as answers are) and some transport writes end with (prefix accepted, temporary error) instead - or, without such faults, only the even-numbered writers retry and the others use plain WriteTo; the retry budget is 64, MaxInt or MaxUint; non-trivial = >= 2 writers and >= 1 stalling transport write (the classes dyn:* count the stalls during which another writer was observed inside WriteTo)",
 	Gen:  genConc, Run: runConc, Classify: classifyConc, Attempts: 5,
 })
 
